@@ -21,16 +21,16 @@ TEXTS = {
     "C03": {"engine": "sim", "design_ref": "DESIGN.md 3/C03", "technique": "stateful PBT with quiescent obligations and end-of-history drain (bounded liveness)",
             "level_text": sim_text("of obligations at every quiescent point (free slot and eligible head => started) and after a drain in which all tasks terminate (no accepted job still waiting)."),
             "level_note": SIM_NOTE + " Liveness is decided as bounded liveness: 'eventually' = by the end of the drain."},
-    "C04": {"engine": "sim", "design_ref": "DESIGN.md 3/C04", "technique": "stateful PBT with parked scheduler loop (cancel in the gap between tasks); verdict oracle",
+    "C04": {"engine": "sim", "design_ref": "DESIGN.md 3/C04", "technique": "stateful PBT with parked scheduler loop (cancel in the gap between tasks) and parked completion (cancel while the job completes); verdict oracle",
             "level_text": sim_text("of cancel outcomes: return value per job state, no start after a waiting cancel, stop delivered to the task runner, final report canceled, finished jobs unchanged."),
             "level_note": SIM_NOTE},
-    "C05": {"engine": "sim", "design_ref": "DESIGN.md 3/C05", "technique": "stateful PBT against a decision-table model of the statement",
+    "C05": {"engine": "sim", "design_ref": "DESIGN.md 3/C05", "technique": "stateful PBT against a decision-table model of the statement; PBT of overlapping request bursts against the same table folded over the burst (-race build)",
             "level_text": sim_text("that recomputes the admission decision of the statement from the reported running/waiting jobs for every ScheduleAsync call, plus queue-size invariants and no-trace on rejection."),
             "level_note": SIM_NOTE},
     "C06": {"engine": "sim", "design_ref": "DESIGN.md 3/C06", "technique": "stateful PBT with order invariant evaluated at every observed start",
             "level_text": sim_text("at every start of a job that had waited: no earlier accepted job of the pipeline is still waiting."),
             "level_note": SIM_NOTE},
-    "C07": {"engine": "sim", "design_ref": "DESIGN.md 3/C07", "technique": "stateful PBT with harness-fired timers; real-timer PBT for the lower/upper bound",
+    "C07": {"engine": "sim", "design_ref": "DESIGN.md 3/C07", "technique": "stateful PBT with harness-fired timers; real-timer PBT for the lower/upper bound; PBT of overlapping request bursts (forced overlap, -race build)",
             "level_text": sim_text("for the replace/debounce logic and the delay gate; a second part uses real short timers and measures the lower bound and (canary-guarded) the absence of extra delay."),
             "level_note": SIM_NOTE + " Real-time part: wall clock of the sandbox; upper bound guarded by canary timers (inconclusive, never violation, when starved)."},
     "C08": {"engine": "sim", "design_ref": "DESIGN.md 3/C08", "technique": "stateful PBT over graphs x outcomes x fail-fast x completion order; verdict soundness oracle",
@@ -80,7 +80,7 @@ ENGINES = [
     {"name": "inputs", "path": "harness/inputs", "serves_properties": ["C17"], "kind_free_text": "pure generated-input properties (rapid) and native fuzz targets"},
     {"name": "storefs", "path": "harness/storefs", "serves_properties": ["C09", "C10"], "kind_free_text": "real JsonDataStore on disk: racing readers, SIGKILLed saver child (cmd/vhelper), strace fault injection"},
     {"name": "procs", "path": "harness/procs", "serves_properties": ["C18", "C19", "C20"], "kind_free_text": "real TaskRunner + real processes + helper binary cmd/vhelper"},
-    {"name": "stress", "path": "harness/stress", "serves_properties": ["C13"], "kind_free_text": "free-running concurrent workloads, test binary built with -race"},
+    {"name": "stress", "path": "harness/stress", "serves_properties": ["C05", "C07", "C13"], "kind_free_text": "free-running concurrent workloads and forced-overlap request bursts, test binary built with -race"},
     {"name": "httpauth", "path": "harness/httpauth", "serves_properties": ["C14"], "kind_free_text": "router walk + generated credentials against the server's http.Handler"},
 ]
 
